@@ -170,7 +170,38 @@ fn classify(ms: &ModuleSet, clause: &str, detail: &str) -> Option<&'static str> 
     None
 }
 
+/// the same module set with an information object class exported by one module and listed (at
+/// the front, in the middle or at the end) in an IMPORTS clause that names types of that module
+fn with_class_import(ms: &ModuleSet) -> Option<ModuleSet> {
+    let mut out = ms.clone();
+    let (mi, ii) = out.modules.iter().enumerate().find_map(|(mi, m)| m.imports.iter().position(|im| !im.symbols.is_empty()).map(|ii| (mi, ii)))?;
+    let from = out.modules[mi].imports[ii].from.clone();
+    let exporter = out.modules.iter().position(|m| m.name == from)?;
+    let toks: Vec<String> = "ZQ-CLASS ::= CLASS { &id INTEGER UNIQUE , &Type } WITH SYNTAX { ID &id TYPE &Type }".split(' ').map(|t| t.to_string()).collect();
+    out.modules[exporter].items.push(Item::Raw { name: "ZQ-CLASS".into(), toks, kind: "class".into() });
+    let syms = &mut out.modules[mi].imports[ii].symbols;
+    // position derived from the list itself (no randomness outside the generator's stream)
+    let pos = [0, syms.len() / 2, syms.len()][(syms.len() + mi + ii) % 3];
+    syms.insert(pos, "ZQ-CLASS".into());
+    Some(out)
+}
+
 pub fn eval(ms: &ModuleSet) -> Verdict {
+    let v = eval_one(ms);
+    if !matches!(v, Verdict::Pass { .. }) {
+        return v;
+    }
+    match with_class_import(ms) {
+        Some(ms2) => match eval_one(&ms2) {
+            Verdict::Fail { key, finding, what, observed, nontrivial } => Verdict::Fail { key: format!("class-in-imports:{key}"), finding, what: format!("with an object class in the IMPORTS list: {what}\n{}", print(&ms2)), observed, nontrivial },
+            // an Err / warning for the class notation is not this check's business
+            _ => v,
+        },
+        None => v,
+    }
+}
+
+fn eval_one(ms: &ModuleSet) -> Verdict {
     let text = print(ms);
     let out = match comp::compile_ts(&[text]) {
         Outcome::Ok(c) => c,
@@ -203,6 +234,10 @@ pub fn eval(ms: &ModuleSet) -> Verdict {
         // imports: every IMPORTS symbol has an alias line from the right namespace
         for im in &m.imports {
             for s in &im.symbols {
+                // information object classes have no TypeScript counterpart
+                if s.chars().all(|c| c.is_ascii_uppercase() || c == '-') {
+                    continue;
+                }
                 let ok = found[0].imports.iter().any(|(a, from, n)| *a == mangle(s) && *from == mangle(&im.from) && *n == mangle(s));
                 if !ok {
                     return Verdict::Fail { key: "import".into(), finding: None, what: format!("module {}: no `import {} = {}.{}`", m.name, mangle(s), mangle(&im.from), mangle(s)), observed: json!(null), nontrivial };
